@@ -62,6 +62,18 @@ CHECKS = {
              "(the property does not decide); classes g++ itself rejects are filtered and counted.",
         technique="bounded exhaustive program enumeration on the real tools, g++ type-trait oracle",
     ),
+    "C12": dict(
+        level="model_checking",
+        text="Explicit-state exploration of load histories on the real libinterrogatedb (one process per history): real "
+             "databases with adversarial strings, synthetic databases from an independent writer of the .in format (every "
+             "string field x 12 adversarial strings, every flag bit, vector lengths 0/1/2/5, minor formats 3.0-3.3), EVERY "
+             "prefix of representative files, version/identifier mismatches, depth-2 histories; load -> dump -> re-serialise "
+             "must reproduce bytes and answers; rejects must set the error flag and leave the database unmerged; asan build.",
+        design="4/C12",
+        note="Files written without -oc are renumbered on load (allowed by the interface header): judged up to index renaming "
+             "plus byte-exact fixpoint; the independent reader/writer vf/idb.py is part of the trusted base.",
+        technique="explicit-state search over load histories + exhaustive prefix enumeration on the real library",
+    ),
     "C14": dict(
         level="model_checking",
         text="Deviation-bounded enumeration of environment answers (allocator address order asc/desc and every permutation "
@@ -96,6 +108,17 @@ CHECKS = {
         note="Faults are injected at the libc calls libstdc++ uses (fopen64/write/writev/fclose) through an LD_PRELOAD "
              "seam; kernel partial writes modelled as short writes; single fault per run.",
         technique="deviation-bounded exhaustive fault-point enumeration on the real binaries (LD_PRELOAD injector)",
+    ),
+    "C20": dict(
+        level="model_checking",
+        text="Every function of interrogate_interface.h (harness generated from the header at check time) is called over every "
+             "index in [-2,next_index+2]+{INT_MIN,INT_MAX} and every position in [-1,count+1] on several databases (asan "
+             "build, fork per group); results compared with the raw dump (valid index) or the neutral value (invalid); every "
+             "stored name and its mutations looked up; unique-name tables of every size 0..6 queried with every present key, "
+             "an absent key in every gap and all short strings; fptr tables 0..3 over two modules.",
+        design="4/C20",
+        note="One open known finding (interrogate_type_array_size answers 1 for an index naming no type).",
+        technique="exhaustive enumeration of (function, index, position) and lookup keys on the real library",
     ),
 }
 
